@@ -3,7 +3,7 @@ import json
 
 from lib import vlib
 
-ENVNAMES = '  EnvNames = {"A", "B"}\n'
+ENVNAMES = '  EnvNames = {"A", "B", "a"}\n'
 CFG = "SPECIFICATION Spec\nCONSTANTS\n  DoExport = TRUE\n" + ENVNAMES + "INVARIANTS InvInjective Export\nCHECK_DEADLOCK FALSE\n"
 ASSUMPTIONS = [
     "The real payload bytes are those the library logs under WithDebugSigning(true), for Sign and for Verify.",
